@@ -1,10 +1,10 @@
 package checks
 
 import (
-	"math/bits"
 	"bytes"
 	"encoding/binary"
 	"fmt"
+	"math/bits"
 	"reflect"
 	"sort"
 	"strings"
